@@ -419,9 +419,22 @@ func (mp *mergeProcessor) processBlock(
 			return nil
 		}
 
-		err = coreblock.ProcessBlock(ctx, crdt, block, blockLink)
-		if err != nil {
-			return err
+		// A field block can be linked from more than one composite: two replicas that write the same
+		// value on top of the same field head produce the same field block. Processing it a second
+		// time would make it a head again although its descendants have already been merged.
+		alreadyMerged := false
+		if dagBlock.Delta.IsField() {
+			alreadyMerged, err = mp.isMerged(ctx, crdt.HeadstorePrefix(), blockLink, dagBlock.Delta.GetPriority())
+			if err != nil {
+				return err
+			}
+		}
+
+		if !alreadyMerged {
+			err = coreblock.ProcessBlock(ctx, crdt, block, blockLink)
+			if err != nil {
+				return err
+			}
 		}
 	}
 
@@ -442,6 +455,49 @@ func (mp *mergeProcessor) processBlock(
 	}
 
 	return nil
+}
+
+// isMerged returns true if the block with the given link and height is one of the heads stored
+// under the given headstore key or an ancestor of one of them.
+func (mp *mergeProcessor) isMerged(
+	ctx context.Context,
+	key keys.HeadstoreKey,
+	blockLink cidlink.Link,
+	height uint64,
+) (bool, error) {
+	heads, err := getHeads(ctx, key)
+	if err != nil {
+		return false, err
+	}
+
+	visited := make(map[cid.Cid]struct{})
+	for len(heads) > 0 {
+		head := heads[0]
+		heads = heads[1:]
+		if head == blockLink.Cid {
+			return true, nil
+		}
+		if _, ok := visited[head]; ok {
+			continue
+		}
+		visited[head] = struct{}{}
+
+		nd, err := mp.blockLS.Load(linking.LinkContext{Ctx: ctx}, cidlink.Link{Cid: head}, coreblock.BlockSchemaPrototype)
+		if err != nil {
+			return false, err
+		}
+		block, err := coreblock.GetFromNode(nd)
+		if err != nil {
+			return false, err
+		}
+		// only blocks above the given height can have it as an ancestor
+		if block.Delta.GetPriority() > height {
+			for _, link := range block.Heads {
+				heads = append(heads, link.Cid)
+			}
+		}
+	}
+	return false, nil
 }
 
 func decryptBlock(
